@@ -102,12 +102,12 @@ Proof.
   destruct (IH l _ x Hok' Hx Hds') as (rw & db & ->). eexists; eexists; reflexivity.
 Qed.
 
-Lemma unstake_never_fails_lemma s who pid p fi amt :
-  reachable s -> actor who ->
-  get pid (pools s) = Some p -> get who (p_farmers p) = Some fi -> 0 < amt <= f_locked fi ->
+Lemma unstake_never_fails_inv s who pid p fi amt :
+  inv s -> actor who ->
+  get pid (pools s) = Some p -> get who (p_farmers p) = Some fi -> 0 <= amt <= f_locked fi ->
   exists s' rw, unstake s who pid (p_lpt p) amt = Done s' rw.
 Proof.
-  intros R (HwF & HwC & _) Hg Hf Hamt. pose proof (reachable_inv _ R) as I. pose proof (get_pool_inv _ _ _ I Hg) as PI.
+  intros I (HwF & HwC & _) Hg Hf Hamt. pose proof (get_pool_inv _ _ _ I Hg) as PI.
   destruct (farmer_ok _ _ _ _ PI Hf) as [Hl Hdebts].
   assert (0 < pid) as Hpid.
   { pose proof (i_ids _ I) as Hids. rewrite Forall_forall in Hids. apply (Hids pid). eapply get_Some_in_keys; exact Hg. }
@@ -160,6 +160,12 @@ Proof.
     pose proof P18_pos. nia. }
   rewrite Hs2. eexists; eexists; reflexivity.
 Qed.
+
+Lemma unstake_never_fails_lemma s who pid p fi amt :
+  reachable s -> actor who ->
+  get pid (pools s) = Some p -> get who (p_farmers p) = Some fi -> 0 < amt <= f_locked fi ->
+  exists s' rw, unstake s who pid (p_lpt p) amt = Done s' rw.
+Proof. intros R Ha Hg Hf Hamt. apply (unstake_never_fails_inv s who pid p fi amt (reachable_inv _ R) Ha Hg Hf). lia. Qed.
 
 (** a successful unstake pays exactly the principal and the accrued rewards, and records the rest *)
 Lemma unstake_returns_principal_lemma s who pid d amt s' rw :
